@@ -217,6 +217,10 @@ def make_image(rng, cls, shp, C, dtype, mask_kind, constant=None):
 FEATS = ["gradient", "gaussian_filter", "igo", "double_igo", "es", "no_op", "daisy", "daisy", "compose", "sum_channels"]
 
 
+class PixelBuffer(np.ndarray):
+    """A user's own ndarray subclass (what np.memmap / np.recarray are to numpy): holds pixels like any array."""
+
+
 def w_features(ctx, rng, i):
     import menpo.feature as mf
     cls = ["Image", "MaskedImage"][i % 2]
@@ -289,7 +293,13 @@ def w_features(ctx, rng, i):
             ctx.fail("feature_result_changed_by_a_later_call_on_other_data", cls=fname, mech=cls)
     # the array route, on the same data, leaves the array alone as well (judged by the tap)
     if fname not in ("compose",):
-        (getattr(mf, fname)(im.pixels, *( [opts["sigma"]] if fname == "gaussian_filter" else []), **({} if fname == "gaussian_filter" else opts)))
+        arr_ = im.pixels
+        if rng.random() < 0.3:
+            # the raw array as an instance of an ndarray subclass (a memory-mapped file, a record-array view, a user's own class):
+            # an array like any other
+            arr_ = im.pixels.view(PixelBuffer) if rng.random() < 0.6 else im.pixels.view(np.recarray)
+            ctx.bump("raw_arrays_of_an_ndarray_subclass")
+        (getattr(mf, fname)(arr_, *( [opts["sigma"]] if fname == "gaussian_filter" else []), **({} if fname == "gaussian_filter" else opts)))
     # internal use: the Gaussian pyramid calls gaussian_filter on images
     if i % 23 == 0 and len(shp) == 2:
         list(im.gaussian_pyramid(n_levels=2, downscale=2))
@@ -331,8 +341,12 @@ def w_normalisers(ctx, rng, i):
         else:
             im.pixels[rng.integers(0, C)] *= 10.0 ** rng.uniform(-6, -3)
     x = im.pixels if cls == "array" else im
+    if cls == "array" and rng.random() < 0.25:
+        x = im.pixels.view(PixelBuffer)
     f = getattr(mf, fname)
-    kwargs = {"mode": mode, "error_on_divide_by_zero": err}
+    # (the flag in any of the spellings a caller's own computation yields: a Python bool, a numpy bool, 0 / 1)
+    err_arg = [err, err, np.bool_(err), int(err)][rng.integers(0, 4)]
+    kwargs = {"mode": mode, "error_on_divide_by_zero": err_arg}
     custom = None
     if fname == "normalize":
         which = int(rng.integers(0, 5))
@@ -366,7 +380,7 @@ def w_normalisers(ctx, rng, i):
     try:
         if rng.random() < 0.4:
             # the options given positionally, in the documented order
-            r = f(x, custom, mode, err) if fname == "normalize" else f(x, mode, err)
+            r = f(x, custom, mode, err_arg) if fname == "normalize" else f(x, mode, err_arg)
             ctx.bump("normaliser_options_given_positionally")
         else:
             r = f(x, **kwargs)
